@@ -38,6 +38,14 @@ def handle (toks : List String) : Option String :=
       if ls.length != n then none else
       let out := (List.range n).map fun d => showVerdict (detect n (fun s => ls.getD s []) d)
       pure (String.intercalate "/" out)).getD "bad-request"
+  | ["c11.e2e", n, lists] => some <| (do
+      let n ← n.toNat?
+      let ls ← parseTagLists lists
+      if ls.length != n then none else
+      -- distinct report indices stand for distinct tags (TagInjective); a repeated index is the same ciphertext
+      let verdicts := (List.range n).map fun d => detect n (fun s => ls.getD s []) d
+      -- NOTE: the model routes by `index mod n`; the real tags are random, so only the verdict is compared
+      pure (if verdicts.any Option.isSome then "rejected:on-picker-shard" else "accepted")).getD "bad-request"
   | _ => none
 
 /-! Spec-side oracle (independent of the model): a shard must report a duplicate iff two of the
@@ -82,6 +90,13 @@ def oracle (toks : List String) (impl : String) : Option String :=
       if !ok then pure "fails some shard's verdict differs from 'two equal tags are routed to it'"
       else if anyDup != hasDup all then pure "fails duplicate across the whole input not detected (or distinct input rejected)"
       else pure "holds").getD "unknown"
+  | ["c11.e2e", _n, lists] => some <| (do
+      let ls ← parseTagLists lists
+      if hasDup ls.flatten then
+        pure (if impl == "rejected:on-picker-shard" then "holds"
+              else if impl.startsWith "rejected" then "fails duplicate reported by a shard other than shard_picker(tag)"
+              else s!"fails the same encrypted report was submitted twice but the query was not rejected ({impl})")
+      else pure (if impl == "accepted" then "holds" else s!"fails pairwise distinct reports were not accepted ({impl})")).getD "unknown"
   | _ => none
 
 end IpaVerif.Driver.C11
